@@ -18,14 +18,25 @@ pub struct GenCfg {
     pub start_weight: u32,
     /// wrap the first program in 1-6 extra layers of hosting combinators (C05)
     pub wrap: bool,
+    /// sizes beyond every threshold a unit test stays under: bursts of > 1024 events in one call,
+    /// > 1024 requests outstanding at once (with `Drain` actions that answer hundreds of them)
+    pub scale: bool,
+    /// weight of "undecodable bytes as the response to a live stream" (byte hosts only)
+    pub garbage_weight: u32,
+    /// weight of the two abort actions among shell actions
+    pub abort_weight: u32,
+    /// per cent of the universes whose first program is put behind a pending first part:
+    /// `then(task awaiting a request, abortable(program))` - the shape in which a command can be
+    /// aborted before it has been started
+    pub behind_then: u32,
 }
 
 impl GenCfg {
     pub fn standard() -> Self {
-        GenCfg { depth: 3, max_acts: 30, abortable: true, task_aborts: true, retaining: true, legacy: false, again_weight: 2, start_weight: 1, wrap: false }
+        GenCfg { depth: 3, max_acts: 30, abortable: true, task_aborts: true, retaining: true, legacy: false, again_weight: 2, start_weight: 1, wrap: false, scale: true, garbage_weight: 0, abort_weight: 1, behind_then: 4 }
     }
     pub fn legacy() -> Self {
-        GenCfg { depth: 3, max_acts: 30, abortable: false, task_aborts: false, retaining: false, legacy: true, again_weight: 2, start_weight: 1, wrap: false }
+        GenCfg { depth: 3, max_acts: 30, abortable: false, task_aborts: false, retaining: false, legacy: true, again_weight: 2, start_weight: 1, wrap: false, scale: true, garbage_weight: 0, abort_weight: 1, behind_then: 4 }
     }
 }
 
@@ -37,6 +48,7 @@ fn block(cfg: GenCfg) -> BoxedStrategy<Vec<Stmt>> {
             (1, Just(Stmt::Note).boxed()),
             (1, (1u8..3).prop_map(Stmt::Yield).boxed()),
             (1, Just(Stmt::AwaitChain).boxed()),
+            (1, if cfg.scale { prop_oneof![30 => 2u16..9, 1 => 1020u16..1300].prop_map(Stmt::Burst).boxed() } else { (2u16..9).prop_map(Stmt::Burst).boxed() }),
         ];
         if !cfg.legacy {
             v.push((1, (0u8..2).prop_map(Stmt::Join).boxed()));
@@ -44,8 +56,11 @@ fn block(cfg: GenCfg) -> BoxedStrategy<Vec<Stmt>> {
                 v.push((1, (0u8..2).prop_map(Stmt::AbortT).boxed()));
                 v.push((1, (0u8..2).prop_map(Stmt::Export).boxed()));
             }
+            if cfg.abortable {
+                v.push((1, any::<u16>().prop_map(Stmt::AbortCmd).boxed()));
+            }
             if cfg.retaining {
-                v.push((1, (31u8..35).prop_map(Stmt::JoinBig).boxed()));
+                v.push((1, if cfg.scale { prop_oneof![20 => 31u16..35, 1 => 1030u16..1200].prop_map(Stmt::JoinBig).boxed() } else { (31u16..35).prop_map(Stmt::JoinBig).boxed() }));
             }
         }
         proptest::strategy::Union::new_weighted(v)
@@ -108,16 +123,21 @@ pub fn cmd(cfg: GenCfg) -> BoxedStrategy<Cmd> {
 }
 
 pub fn act(cfg: GenCfg) -> BoxedStrategy<Act> {
-    prop_oneof![
-        10 => any::<u16>().prop_map(Act::Resolve),
-        3 => any::<u16>().prop_map(Act::Drop),
-        cfg.again_weight => any::<u16>().prop_map(Act::ResolveAgain),
-        1 => any::<u16>().prop_map(Act::AbortCmd),
-        1 => any::<u16>().prop_map(Act::AbortTask),
-        cfg.start_weight => (0u8..3).prop_map(Act::Start),
-        1 => Just(Act::Noop),
-    ]
-    .boxed()
+    let drain_len = if cfg.scale { prop_oneof![20 => 2u16..40, 1 => 500u16..1300].boxed() } else { (2u16..40).boxed() };
+    let mut v: Vec<(u32, BoxedStrategy<Act>)> = vec![
+        (10, any::<u16>().prop_map(Act::Resolve).boxed()),
+        (3, any::<u16>().prop_map(Act::Drop).boxed()),
+        (cfg.abort_weight.max(1), any::<u16>().prop_map(Act::AbortCmd).boxed()),
+        (cfg.abort_weight.max(1), any::<u16>().prop_map(Act::AbortTask).boxed()),
+        (1, Just(Act::Noop).boxed()),
+        (1, (drain_len, any::<u8>()).prop_map(|(n, pat)| Act::Drain(n, pat)).boxed()),
+    ];
+    for (w, st) in [(cfg.again_weight, any::<u16>().prop_map(Act::ResolveAgain).boxed()), (cfg.start_weight, (0u8..3).prop_map(Act::Start).boxed()), (cfg.garbage_weight, any::<u16>().prop_map(Act::Garbage).boxed())] {
+        if w > 0 {
+            v.push((w, st));
+        }
+    }
+    proptest::strategy::Union::new_weighted(v).boxed()
 }
 
 fn wrap_in(c: Cmd, layer: u8) -> Cmd {
@@ -134,8 +154,12 @@ fn wrap_in(c: Cmd, layer: u8) -> Cmd {
 
 pub fn universe(cfg: GenCfg) -> BoxedStrategy<Universe> {
     let layers = if cfg.wrap { prop::collection::vec(0u8..7, 1..7).boxed() } else { Just(vec![]).boxed() };
-    (prop::collection::vec(cmd(cfg), 1..3), proptest::option::weighted(0.5, (1u8..8, 0u8..3)), prop::collection::vec(act(cfg), 0..cfg.max_acts), layers)
-        .prop_map(move |(mut programs, follow, acts, layers)| {
+    (prop::collection::vec(cmd(cfg), 1..3), proptest::option::weighted(0.5, (1u8..8, 0u8..3)), prop::collection::vec(act(cfg), 0..cfg.max_acts), layers, 0u32..100)
+        .prop_map(move |(mut programs, follow, acts, layers, behind)| {
+            if !cfg.legacy && cfg.abortable && behind < cfg.behind_then {
+                let p = std::mem::replace(&mut programs[0], Cmd::Done);
+                programs[0] = Cmd::Then(Box::new(Cmd::Async(0, vec![Stmt::Await])), Box::new(Cmd::Abortable(0, Box::new(p))));
+            }
             if !cfg.legacy {
                 for l in layers {
                     let p = std::mem::replace(&mut programs[0], Cmd::Done);
